@@ -55,8 +55,8 @@ Print Assumptions classified_search_loop_order_independent.
     elements up to order — and the statement right after it sorts [s], so for a sorter that is a function of the
     multiset the sorted slices are equal *)
 Theorem classified_collect_sort_loop_order_independent :
-  forall (val : Type) (ev : evaluator val) (kvar vvar : string) (ranged : expr) (after : list stmt) (t : tree) (s by_type : string),
-    classify_tree kvar vvar ranged after t = Some (ShCollectSort s by_type) ->
+  forall (val : Type) (ev : evaluator val) (kvar vvar : string) (ranged : expr) (after : list stmt) (t : tree) (s : string) (cmp : comparator),
+    classify_tree kvar vvar ranged after t = Some (ShCollectSort s cmp) ->
     forall (inv : env val) (st : store val) (l l' : list (val * val)), Permutation l l' ->
     exists x y, run_loop ev t kvar vvar inv l st = RCont x /\ run_loop ev t kvar vvar inv l' st = RCont y /\
       (forall m, get_map m x = get_map m y) /\
@@ -64,7 +64,7 @@ Theorem classified_collect_sort_loop_order_independent :
       Permutation (get_slice s x) (get_slice s y) /\
       (forall sorter : list val -> list val, (forall a b, Permutation a b -> sorter a = sorter b) ->
          sorter (get_slice s x) = sorter (get_slice s y)) /\
-      exists rest, after = SSort s by_type :: rest.
+      comparator_ok cmp = true /\ exists rest, after = SSort s cmp :: rest.
 Proof. exact @classified_collect_sound. Qed.
 Print Assumptions classified_collect_sort_loop_order_independent.
 
@@ -108,6 +108,19 @@ Proof.
   eapply Permutation_trans; [exact Pa|]. eapply Permutation_trans; [exact P|]. apply Permutation_sym. exact Pb.
 Qed.
 Print Assumptions sort_spec_is_canonical.
+
+(** ... and so is ANY sort by a total order on injective keys — what the classifier's [comparator_ok] establishes
+    syntactically for sort.Slice / sort.SliceStable / slices.SortFunc / sort.Strings comparators: the same key term on both
+    sides, an injective key term, keys compared by [<] / [>] on strings or integers or by bytes.Compare / strings.Compare *)
+Theorem keyed_sort_by_total_order_is_canonical :
+  forall (A K : Type) (key : A -> K) (le : K -> K -> Prop),
+    (forall x y, le x y -> le y x -> x = y) ->
+    (forall a b, key a = key b -> a = b) ->
+    forall sort : list A -> list A,
+    (forall l, Permutation (sort l) l /\ StronglySorted (fun a b => le (key a) (key b)) (sort l)) ->
+    forall a b, Permutation a b -> sort a = sort b.
+Proof. exact @keyed_sort_is_canonical. Qed.
+Print Assumptions keyed_sort_by_total_order_is_canonical.
 
 (** the proved part of the property *)
 Theorem C14_map_iteration_partial :
@@ -382,11 +395,19 @@ Definition ex_copy : site := {|
   s_ranged := E "maccPerms" ["maccPerms"] []; s_body := [SStore "dup" (E "k" ["k"] []) (E "v" ["v"] [])];
   s_after := []; s_text := "" |}.
 
+Definition ex_bytes_cmp : comparator :=
+  CmpKey "<" "bytes.Compare" "[]byte" (KMethod "(github.com/ethereum/go-ethereum/common.Address).Bytes" KElem)
+                                      (KMethod "(github.com/ethereum/go-ethereum/common.Address).Bytes" KElem).
+
 Example classifier_accepts :
   option_map snd (classify ex_recents) = Some ShSearch /\
-  option_map snd (classify (ex_validators [SSort "validators" "validatorsAscending"; SReturn [E "validators" ["validators"] []]])) =
-    Some (ShCollectSort "validators" "validatorsAscending") /\
-  option_map snd (classify ex_copy) = Some ShStore.
+  option_map snd (classify (ex_validators [SSort "validators" (CmpNamed "validatorsAscending"); SReturn [E "validators" ["validators"] []]])) =
+    Some (ShCollectSort "validators" (CmpNamed "validatorsAscending")) /\
+  option_map snd (classify ex_copy) = Some ShStore /\
+  (* sort.Slice(validators, func(i, j int) bool { return bytes.Compare(validators[i].Bytes(), validators[j].Bytes()) < 0 }) *)
+  option_map snd (classify (ex_validators [SSort "validators" ex_bytes_cmp])) = Some (ShCollectSort "validators" ex_bytes_cmp) /\
+  (* sort.Strings(names) *)
+  comparator_ok (CmpKey "<" "" "string" KElem KElem) = true.
 Proof. vm_compute. repeat split. Qed.
 Print Assumptions classifier_accepts.
 
@@ -394,7 +415,7 @@ Print Assumptions classifier_accepts.
     a walk that counts entries and returns the loop variable, an append to a struct field, a loop that reads the map it
     writes *)
 Example classifier_rejects :
-  classify (ex_validators [SIf (E "len(validators) > 21" ["validators"] ["len"]) [SSort "validators" "validatorsAscending"] []]) = None /\
+  classify (ex_validators [SIf (E "len(validators) > 21" ["validators"] ["len"]) [SSort "validators" (CmpNamed "validatorsAscending")] []]) = None /\
   classify {| s_file := ""; s_func := ""; s_hash := ""; s_kvar := "seen"; s_vvar := "recent"; s_ranged := E "snap.Recents" ["snap"] [];
               s_body := [SIf (E "recent == signer" ["recent"; "signer"] [])
                            [SIf (E "seen > number-limit" ["seen"; "number"; "limit"] []) [SReturn [E "err" ["err"] []]] []; SOther "break"] []];
@@ -412,6 +433,30 @@ Example classifier_rejects :
               s_body := [SStore "m" (E "len(m)" ["m"] ["len"]) (E "k" ["k"] [])]; s_after := []; s_text := "" |} = None.
 Proof. vm_compute. repeat split. Qed.
 Print Assumptions classifier_rejects.
+
+(** comparators that are NOT a total order on the elements are rejected: a prefix of the key, one field, different keys
+    on the two sides, a float order (NaN), a comparator the translator could not read *)
+Example comparator_rejects :
+  comparator_ok (CmpKey "<" "bytes.Compare" "[]byte" (KOther "validators[i][:4]") (KOther "validators[j][:4]")) = false /\
+  comparator_ok (CmpKey "<" "" "string" (KOther "relayers[i].Address") (KOther "relayers[j].Address")) = false /\
+  comparator_ok (CmpKey "<" "bytes.Compare" "[]byte" (KMethod "(github.com/ethereum/go-ethereum/common.Address).Bytes" KElem) (KSliceAll KElem)) = false /\
+  comparator_ok (CmpKey "<" "" "float64" KElem KElem) = false /\
+  comparator_ok (CmpKey "<=" "" "string" KElem KElem) = false /\
+  comparator_ok (CmpOther "sort.Slice(x, less)") = false /\
+  classify (ex_validators [SSort "validators" (CmpKey "<" "bytes.Compare" "[]byte" (KOther "validators[i][:4]") (KOther "validators[j][:4]"))]) = None.
+Proof. vm_compute. repeat split. Qed.
+Print Assumptions comparator_rejects.
+
+(** the premise of [keyed_sort_by_total_order_is_canonical] cannot be dropped: sorting by a key that is not injective
+    (here: the first byte) leaves the order of elements with equal keys to the input arrangement *)
+Example sort_by_prefix_is_order_dependent :
+  let key (a : bytes) := match a with b :: _ => [b] | [] => [] end in
+  let ins := fix ins (a : bytes) (l : list bytes) := match l with [] => [a] | h :: t => if bytes_ltb (key a) (key h) then a :: l else h :: ins a t end in
+  let sort (l : list bytes) := fold_right ins [] l in
+  Permutation [[x01; x02]; [x01; x03]] [[x01; x03]; [x01; x02]] /\
+  sort [[x01; x02]; [x01; x03]] <> sort [[x01; x03]; [x01; x02]].
+Proof. split; [apply perm_swap|vm_compute; discriminate]. Qed.
+Print Assumptions sort_by_prefix_is_order_dependent.
 
 (** the last one really is order dependent — under the concrete evaluator [sum_evaluator] ("len(m)" = the number of
     stores so far) the two enumerations of a two-entry map give maps that differ at key 0: the well-formedness
